@@ -257,13 +257,100 @@ Definition free (h : heap) (b : block) : res heap :=
 Definition free_deferred (h : heap) (b : block) : heap :=
   set_pending h (pending h ++ [b]).
 
-Inductive op := Malloc (n : Z) | Free (b : block) | FreeDeferred (b : block).
+(* ---- re-entrant free ------------------------------------------------------
+   free(v) called by the thread that is itself inside malloc()/free() and holds the lock:
+   a finaliser (BufferWrapper's Finalize) run by the garbage collector at that moment.
+   `self._lock = threading.Lock()` is not re-entrant, so `self._lock.acquire(False)` fails
+   and the nested call only appends v to the pending list.  [reentrant = true] describes
+   what a re-entrant lock (threading.RLock) would do: the acquire succeeds and the whole
+   free -- drain, remove, _free -- runs nested, on whatever intermediate state the outer
+   call has reached. *)
+Definition lock_reentrant : bool := false.
+
+Definition free_nested (reentrant : bool) (h : heap) (v : block) : res heap :=
+  if reentrant then free h v else OK (free_deferred h v).
+
+(* where the outer call is when the finaliser runs *)
+Inductive rpoint :=
+| RLocked      (* lock acquired, _free_pending_blocks not yet run *)
+| RDrained     (* _free_pending_blocks returned *)
+| RTaken       (* malloc: _malloc returned its block (not yet split, not yet in _allocated_blocks);
+                  free: the block has left _allocated_blocks, _free not yet entered *)
+| RPrev        (* inside _free: the free left neighbour (if any) has been absorbed *)
+| RNext        (* inside _free: the free right neighbour (if any) has been absorbed *)
+| RInserted    (* _free returned: the merged block is registered *)
+| RDone.       (* just before the lock is released *)
+
+Definition rpoint_eqb (a b : rpoint) : bool :=
+  match a, b with
+  | RLocked, RLocked | RDrained, RDrained | RTaken, RTaken | RPrev, RPrev
+  | RNext, RNext | RInserted, RInserted | RDone, RDone => true
+  | _, _ => false
+  end.
+
+(* the nested call, if [p] is the point at which the finaliser of [v] runs *)
+Definition nested (re : bool) (i : option (rpoint * block)) (p : rpoint) (h : heap) : res heap :=
+  match i with
+  | Some (q, v) => if rpoint_eqb p q then free_nested re h v else OK h
+  | None => OK h
+  end.
+
+(* Heap._free with the points inside it *)
+Definition c_free_re (re : bool) (i : option (rpoint * block)) (h : heap) (b : block) : res heap :=
+  do (h1, st) <- free_prev h b;
+  do h1' <- nested re i RPrev h1;
+  do (h2, en) <- free_next h1' b;
+  do h2' <- nested re i RNext h2;
+  nested re i RInserted (free_insert h2' (b_arena b, st, en)).
+
+(* malloc without a remainder does not call _free: its three points collapse into one place *)
+Definition nested_skip (re : bool) (i : option (rpoint * block)) (h : heap) : res heap :=
+  do h1 <- nested re i RPrev h;
+  do h2 <- nested re i RNext h1;
+  nested re i RInserted h2.
+
+Definition malloc_re (re : bool) (pg : Z) (i : option (rpoint * block)) (h : heap) (n : Z)
+  : res (block * heap) :=
+  if (n <? 0) || (maxsize <=? n) then Err AssertionError else
+  do h0 <- nested re i RLocked h;
+  do h1 <- drain h0;
+  do h1' <- nested re i RDrained h1;
+  let size := norm_size n in
+  do (blk, h2) <- c_malloc pg h1' size;
+  do h2' <- nested re i RTaken h2;
+  let new_stop := b_start blk + size in
+  do h3 <- (if new_stop <? b_stop blk then c_free_re re i h2' (b_arena blk, new_stop, b_stop blk)
+            else nested_skip re i h2');
+  let b := (b_arena blk, b_start blk, new_stop) in
+  do h4 <- nested re i RDone (set_alloc h3 (set_add b (alloc h3)));
+  OK (b, h4).
+
+Definition free_re (re : bool) (i : option (rpoint * block)) (h : heap) (b : block) : res heap :=
+  do h0 <- nested re i RLocked h;
+  do h1 <- drain h0;
+  do h1' <- nested re i RDrained h1;
+  match remove1 block_eqb b (alloc h1') with
+  | None => Err KeyError
+  | Some a =>
+    do h2 <- nested re i RTaken (set_alloc h1' a);
+    do h3 <- c_free_re re i h2 b;
+    nested re i RDone h3
+  end.
+
+Inductive op :=
+| Malloc (n : Z)
+| Free (b : block)
+| FreeDeferred (b : block)
+| MallocRe (n : Z) (p : rpoint) (v : block)    (* malloc(n) during which a finaliser calls free(v) at point p *)
+| FreeRe (b : block) (p : rpoint) (v : block). (* free(b)   during which a finaliser calls free(v) at point p *)
 
 Definition step (pg : Z) (h : heap) (o : op) : res (option block * heap) :=
   match o with
   | Malloc n => do (b, h') <- malloc pg h n; OK (Some b, h')
   | Free b => do h' <- free h b; OK (None, h')
   | FreeDeferred b => OK (None, free_deferred h b)
+  | MallocRe n p v => do (b, h') <- malloc_re lock_reentrant pg (Some (p, v)) h n; OK (Some b, h')
+  | FreeRe b p v => do h' <- free_re lock_reentrant (Some (p, v)) h b; OK (None, h')
   end.
 
 Fixpoint run (pg : Z) (h : heap) (ops : list op) : res heap :=
@@ -282,7 +369,10 @@ Inductive cop :=
 | CMalloc (n : Z)
 | CFree (k : nat)
 | CFreeDeferred (k : nat)
-| CMallocGC (n : Z) (k : nat).   (* a finaliser frees block k while malloc(n) holds the lock *)
+| CMallocGC (n : Z) (k : nat)    (* a finaliser frees block k while malloc(n) holds the lock *)
+| CMallocRe (n : Z) (pre : bool) (k : nat)  (* this thread frees block k from inside malloc(n): pre = before the
+                                               pending list is drained, otherwise at any later point under the lock *)
+| CFreeRe (j : nat) (pre : bool) (k : nat). (* the same from inside free(block j) *)
 
 (* what the implementation did on one op: error flag, returned block (or (-1,-1,-1)),
    number of arenas, number of free blocks *)
@@ -300,6 +390,10 @@ Record snapshot := mk_snap {
 
 Definition none_block : block := (-1, -1, -1).
 
+(* the driver places the nested free either on entry to _free_pending_blocks or at some line after
+   its return; all the latter points are the same for the model (Proofs: nested_free_is_deferred) *)
+Definition cpoint (pre : bool) : rpoint := if pre then RLocked else RDone.
+
 (* model side of one case op *)
 Definition cstep (pg : Z) (h : heap) (got : list block) (o : cop) : res (block * heap * list block) :=
   match o with
@@ -309,6 +403,12 @@ Definition cstep (pg : Z) (h : heap) (got : list block) (o : cop) : res (block *
   | CMallocGC n k =>
       do (b, h') <- malloc pg h n;
       OK (b, free_deferred h' (nth k got none_block), got ++ [b])
+  | CMallocRe n pre k =>
+      do (b, h') <- malloc_re lock_reentrant pg (Some (cpoint pre, nth k got none_block)) h n;
+      OK (b, h', got ++ [b])
+  | CFreeRe j pre k =>
+      do h' <- free_re lock_reentrant (Some (cpoint pre, nth k got none_block)) h (nth j got none_block);
+      OK (none_block, h', got)
   end.
 
 Definition obs_of (h : heap) (b : block) : iobs :=
